@@ -69,33 +69,11 @@ def r22a(ctx, run):
     g = tm[0]["f"].get("g") if tm else None
     run.check(bool(tm) and g == ["LexerTokenKind", "TokenKind"], lex.site(tm[0]["ln"] if tm else lex.ln), "transmute::<LexerTokenKind, TokenKind>", "lexer::lex", "transmute-types", lex.file,
               tm[0]["ln"] if tm else lex.ln, "the transmute must be exactly LexerTokenKind -> TokenKind, found %s" % g)
-    err = [a for a in m[0]["arms"] if canon(a["p"]) == "Err(_)"]
-    run.check(len(err) == 1 and canon(err[0]["b"]) == "handler(TokenKind::Error, start)", lex.site(), "unmatched input becomes an Error token at its own start", "lexer::lex", "error-arm", lex.file, lex.ln,
-              "Err spans must be emitted as TokenKind::Error at `start` (otherwise input bytes are dropped)")
+    # (that unmatched input becomes an Error token, and where, is decided by evaluating the driver loop: R22.e)
 
 
 def r22b(ctx, run):
-    lex = ctx.syn.fn("lex", "lexer/src/lib.rs")
-    kp = [x for x in walk(lex.body) if x.get("k") == "mcall" and x["m"] == "push" and canon(x["r"]) == "kinds"]
-    sp = [x for x in walk(lex.body) if x.get("k") == "mcall" and x["m"] == "push" and canon(x["r"]) == "starts"]
-    clos = [s for s in walk(lex.body) if s.get("k") == "local" and s["p"].get("n") == "handler" and s["init"]["k"] == "closure"]
-    inside = lambda x: clos and clos[0]["ln"] <= x["ln"] <= clos[0].get("end", clos[0]["init"].get("end", x["ln"]))
-    good = len(kp) == 1 and len(sp) == 2 and len(clos) == 1 and inside(kp[0]) and sum(1 for x in sp if inside(x)) == 1
-    run.check(good, lex.site(), "kinds.push and starts.push occur together in the handler; one more starts.push outside", "lexer::lex", "pairing", lex.file, lex.ln,
-              "kinds and starts must be pushed pairwise (found %d kinds pushes, %d starts pushes): otherwise kinds.len()+1 != starts.len()" % (len(kp), len(sp)))
-    if clos:
-        c = canon(clos[0]["init"]["b"])
-        pn = [p.get("n") for p in clos[0]["init"]["params"]]
-        run.check("kinds.push(%s)" % pn[0] in c and "starts.push(%s)" % pn[1] in c, lex.site(clos[0]["ln"]), "handler(k, s) pushes k and s", "lexer::lex", "handler", lex.file, clos[0]["ln"],
-                  "the handler must push its kind and its start unchanged")
-    outside = [x for x in sp if not inside(x)]
-    loops = [x for x in walk(lex.body) if x.get("k") == "while"]
-    good = len(outside) == 1 and len(loops) == 1 and outside[0]["ln"] > loops[0].get("end", loops[0]["ln"]) and canon(outside[0]["a"][0]) == "(text.len() as u32).into()"
-    run.check(good, lex.site(outside[0]["ln"] if outside else lex.ln), "sentinel starts.push(text.len()) after the loop", "lexer::lex", "sentinel", lex.file, outside[0]["ln"] if outside else lex.ln,
-              "exactly one sentinel equal to the input length must be pushed after the loop: the last token must end at the end of the input")
-    st = [x for x in walk(lex.body) if x.get("k") == "local" and canon(x["p"]) == "start"]
-    run.check(len(st) == 1 and canon(st[0]["init"]) == "(range.start as u32).into()", lex.site(), "token start = lexer span start", "lexer::lex", "start", lex.file, lex.ln,
-              "a token's start must be the start of the lexer's span")
+    # pairing of kinds/starts, the sentinel and the token starts are decided by evaluating the driver loop (R22.e); here: the representation
     # only constructor
     F = ctx.facts
     ctors = []
@@ -204,18 +182,8 @@ def reference_tokens(s, quote):
     return out
 
 
-def r22d(ctx, run):
-    """the two literal sub-lexers evaluated on every literal of up to 5 characters over {ascii, 2-byte, 2-byte ending in 0xBF, the other
-    quote, quote, backslash}, with a symbolic start offset: the emitted (kind, start) list must be the literal token grammar's"""
-    from symint import SymInterp, Lin, sym, to_lin
-    from absint import Term, Variant, Obj, Panic, CannotEstablish
-    L = "lexer/src/lib.rs"
-    off = sym("offset")
-
-    def resolver(path):
-        last = path.rsplit("::", 1)[-1]
-        c = [f for f in ctx.syn.fns_in(L) if f.body is not None and f.qual.rsplit("::", 1)[-1] == last and not f.in_test]
-        return c[0] if len(c) == 1 else None
+def make_xi():
+    from symint import SymInterp, Lin
 
     class XI(SymInterp):
         def bind(self, p, v, env):
@@ -289,6 +257,23 @@ def r22d(ctx, run):
             if isinstance(recv, list) and m == "contains" and recv and all(isinstance(x, int) for x in recv):
                 return args[0] in recv
             return super().default_method(recv, m, args, e)
+    return XI
+
+
+def r22d(ctx, run):
+    """the two literal sub-lexers evaluated on every literal of up to 5 characters over {ascii, 2-byte, 2-byte ending in 0xBF, the other
+    quote, quote, backslash}, with a symbolic start offset: the emitted (kind, start) list must be the literal token grammar's"""
+    from symint import SymInterp, Lin, sym, to_lin
+    from absint import Term, Variant, Obj, Panic, CannotEstablish
+    L = "lexer/src/lib.rs"
+    off = sym("offset")
+
+    def resolver(path):
+        last = path.rsplit("::", 1)[-1]
+        c = [f for f in ctx.syn.fns_in(L) if f.body is not None and f.qual.rsplit("::", 1)[-1] == last and not f.in_test]
+        return c[0] if len(c) == 1 else None
+
+    XI = make_xi()
     n_ok = 0
     for name, quote in (("lex_string", '"'), ("lex_char", "'")):
         f = ctx.syn.fn(name, L)
@@ -323,10 +308,128 @@ def r22d(ctx, run):
                         "starts on character boundaries)" % (name, sx, g, w))
 
 
+def r22e(ctx, run):
+    """`lex`'s driver loop evaluated on model scanner streams (every sequence of up to 4 items over: identifier, white space, 1-byte and 2-byte
+    unrecognised characters, a string literal, a char literal, a comment): the tokens it builds must (1) be kinds.len()+1 starts, first 0, last the
+    text's length, non-decreasing; (2) begin a token where every scanner item begins (adjacent unrecognised items may share one Error token);
+    (3) cover every byte with a token of the kind the scanner gave that byte (Error for unrecognised input, the literal part kinds inside literals)."""
+    from symint import SymInterp
+    from absint import Term, Variant, Obj, Panic, CannotEstablish
+    import itertools
+    L = "lexer/src/lib.rs"
+    lexf = ctx.syn.fn("lex", L)
+
+    def resolver(path):
+        last = path.rsplit("::", 1)[-1]
+        c = [f for f in ctx.syn.fns_in(L) if f.body is not None and f.qual.rsplit("::", 1)[-1] == last and not f.in_test]
+        return c[0] if len(c) == 1 else None
+    XI = make_xi()
+    ITEMS = {
+        "ident": ("Ident", "ab", {"Ident"}), "space": ("Whitespace", " ", {"Whitespace"}), "err1": (None, "$", {"Error"}), "err2": (None, "\u00a7", {"Error"}),
+        "string": ("__InternalString", '"x"', {"DoubleQuote", "StringContents", "Escape"}), "char": ("__InternalChar", "'c'", {"SingleQuote", "StringContents", "Escape"}),
+        "comment": ("__InternalComment", "//c", {"CommentLeader", "CommentContents"}),
+    }
+
+    class LI(XI):
+        def default_method(self, recv, m, args, e):
+            if isinstance(recv, Obj) and recv.name == "lexer":
+                st = recv.fields
+                if m == "next":
+                    st["i"] += 1
+                    if st["i"] >= len(st["items"]):
+                        return None
+                    k = st["items"][st["i"]][0]
+                    return Variant("Ok", {"0": Variant("LexerTokenKind::" + k)}) if k is not None else Variant("Err", {"0": Term("e")})
+                if m == "span":
+                    _, start, text = st["items"][st["i"]]
+                    return Obj("range", start=start, end=start + len(text.encode()))
+                if m == "slice":
+                    return st["items"][st["i"]][2]
+            if isinstance(recv, Obj) and recv.name == "range" and m == "len":
+                return recv.fields["end"] - recv.fields["start"]
+            if m in ("into", "shrink_to_fit") :
+                return recv if m == "into" else None
+            return super().default_method(recv, m, args, e)
+
+        def eval(self, e, env):
+            if e["k"] == "unsafe":
+                return self.eval(e["b"] if "b" in e else e["e"], env)
+            return super().eval(e, env)
+
+    names = list(ITEMS)
+    bad, n = None, 0
+    for ln_ in (1, 2, 3, 4):
+        for combo in itertools.product(names, repeat=ln_):
+            # two adjacent identifiers / spaces are not a possible scanner output (longest match)
+            if any(combo[i] == combo[i + 1] and combo[i] in ("ident", "space") for i in range(len(combo) - 1)):
+                continue
+            n += 1
+            items, pos = [], 0
+            for c in combo:
+                k, text, _ = ITEMS[c]
+                items.append((k, pos, text))
+                pos += len(text.encode())
+            total = pos
+            out = {}
+            it = LI(resolver=resolver, funcs={
+                "TextSize::from": lambda i, a: a[0], "TextSize::new": lambda i, a: a[0], "TextSize::of": lambda i, a: len(a[0].encode()) if isinstance(a[0], str) else a[0],
+                "LexerTokenKind::lexer": lambda i, a, items=items: Obj("lexer", items=items, i=-1),
+                "mem::transmute": lambda i, a: Variant("TokenKind::" + a[0].last) if isinstance(a[0], Variant) else a[0],
+                "std::mem::transmute": lambda i, a: Variant("TokenKind::" + a[0].last) if isinstance(a[0], Variant) else a[0],
+                "Tokens::new": lambda i, a, out=out: out.update(kinds=a[0], starts=a[1]),
+                "Vec::new": lambda i, a: [], "Vec::with_capacity": lambda i, a: [],
+            }, macros={"debug_assert_eq": lambda i, e, env: None, "debug_assert": lambda i, e, env: None, "format": lambda i, e, env: "fmt"})
+            text = "".join(t for _, _, t in items)
+            try:
+                it.run_fn(lexf, {lexf.param_names()[0]: text})
+            except (Panic, CannotEstablish) as c:
+                bad = (combo, "cannot establish: %s" % getattr(c, "what", c))
+                break
+            if "kinds" not in out:
+                bad = (combo, "lex does not end in Tokens::new(kinds, starts)")
+                break
+            kinds = [k.last if isinstance(k, Variant) else repr(k) for k in out["kinds"]]
+            starts = out["starts"]
+            why = None
+            if len(starts) != len(kinds) + 1 or not all(isinstance(x, int) for x in starts):
+                why = "%d kinds but %d starts" % (len(kinds), len(starts))
+            elif starts[0] != 0 or starts[-1] != total or any(starts[i] > starts[i + 1] for i in range(len(starts) - 1)):
+                why = "starts %s do not run from 0 to the text's length %d" % (starts, total)
+            else:
+                def tok_at(p_):
+                    j = max(i for i in range(len(kinds)) if starts[i] <= p_)
+                    return j
+                for idx, (c, (k, st0, t)) in enumerate(zip(combo, items)):
+                    allowed = ITEMS[c][2]
+                    for p_ in range(st0, st0 + len(t.encode())):
+                        j = tok_at(p_)
+                        if kinds[j] not in allowed:
+                            why = "byte %d (part of the scanner item %s %r) lies in a %s token" % (p_, c, t, kinds[j])
+                            break
+                    if why:
+                        break
+                    merged_err = idx > 0 and c.startswith("err") and combo[idx - 1].startswith("err")
+                    if st0 not in starts and not merged_err:
+                        why = "no token begins at byte %d where the scanner item %s %r begins" % (st0, c, t)
+                        break
+            if why:
+                bad = (combo, "%s (tokens: %s)" % (why, list(zip(kinds, starts))))
+                break
+        if bad:
+            break
+    if n < 1500 and not bad:
+        raise LookupError("scanner streams evaluated: %d" % n)
+    if bad:
+        run.finding("lexer::lex", "stream", lexf.file, lexf.ln, "for the scanner stream %s (text %r): %s" % (list(bad[0]), "".join(ITEMS[c][1] for c in bad[0]), bad[1]))
+    else:
+        run.ok(lexf.site(), "lex evaluated on %d scanner streams: starts cover 0..len, a token begins at every item, every byte lies in a token of its item's kind" % n)
+
+
 def rules(ctx):
     return [
-        Rule("R22.a", "the transmute LexerTokenKind -> TokenKind is an identity on names/discriminants; internal kinds handled first; u8 raw conversions fit", 9, r22a),
-        Rule("R22.b", "kinds/starts pushed pairwise + one sentinel; Tokens::new is the only constructor; range(i) = starts[i]..starts[i+1]", 7, r22b),
+        Rule("R22.a", "the transmute LexerTokenKind -> TokenKind is an identity on names/discriminants; internal kinds handled first; u8 raw conversions fit", 8, r22a),
+        Rule("R22.b", "Tokens::new is the only constructor and states its length invariant; range(i) = starts[i]..starts[i+1]", 3, r22b),
+        Rule("R22.e", "lex's driver loop evaluated on model scanner streams: coverage 0..len, a token begins at every item, every byte in a token of its item's kind", 1, r22e),
         Rule("R22.d", "literal sub-lexers evaluated on all literals up to 5 characters (1- and 2-byte characters, escapes, unterminated) with a symbolic offset = the literal token grammar", 2, r22d),
         Rule("R22.c", "sub-lexers emit only the running position, advanced by len_utf8 once per character", 15, r22c),
     ]
